@@ -139,6 +139,27 @@ check("C08", "DESIGN.md 5/C08",
       "the three outputs: names and cells equal the model and every observed cell is a number.",
       "Trusted: the constructor list probed at run time; 'a number' = numbers.Number / numpy.number / numpy.bool_ per cell.")
 
+check("C04", "DESIGN.md 5/C04",
+      "TLA+ model of spec reuse (MC_Reuse over Materialize.tla: recorded structure, levels, kinds, center shift) with self-replay, "
+      "names-from-spec and row-locality theorems model-checked in TLC; exhaustive replay incl. every short row sequence and pickling; "
+      "relation leg for inexact transforms validated by TLC (Trace_Session)",
+      "TLC proves on the exact sub-domain that a spec reproduces its matrix on the training data, that names depend on the spec alone and "
+      "that any selection / duplication / reordering of follow-up rows yields the corresponding rows; every case is executed with the "
+      "attached and the pickled spec through both entry points and compared cell for cell. For scale / standardize / poly / bs / cr / cc / "
+      "C(contr.poly, diff, scaled helmert) / elementwise functions, random histories are executed and TLC checks that the logged "
+      "row-correspondence witnesses contain the correspondence the model requires.",
+      "Trusted: numpy.allclose(1e-9) as the float row-equality predicate of the relation leg (stated limit: no claim about accuracy). lag() "
+      "is excluded from row-locality as the property says.")
+
+check("C09", "DESIGN.md 5/C09",
+      "TLA+ model of spec reuse on incompatible data (MC_Reuse: kind guard, level pinning, unseen-level announcement) model-checked in TLC; "
+      "exhaustive replay of (training, follow-up) pairs",
+      "TLC proves on every (training frame, follow-up frame, formula) in the bound that a kind change is an encoding error, that reuse never "
+      "adds, removes or renames a column (absent levels keep all-zero columns) and that unseen levels are announced; each pair is executed "
+      "through spec.get_model_matrix and model_matrix(spec, ...), with the pickled spec too, comparing exception class, warning category, "
+      "names and cells with the model.",
+      "Trusted: gamma/alpha. Numeric data under C() counts as unseen levels, not as a kind change (DESIGN section 11), and is not enumerated.")
+
 NOT_YET = "check not yet built in this round (planned; see DESIGN.md section 5)"
 
 
